@@ -379,7 +379,7 @@ def run_corr(ctx, prefix, scale, extra_oracle=None):
     if not build_driver(ctx, "solve"): return
     own = prefix == "ALMSTACKS"
     cases = gen_cases(ctx, scale)
-    outs = run_driver(ctx, "solve", "".join(c.rq.to_input() for c in cases), timeout=1500)
+    outs = run_driver(ctx, "solve", [c.rq.to_input() for c in cases], timeout=1500)
     if outs is None or len(outs) != len(cases):
         ctx.broke("correspondence", "drv_solve", "driver produced %s results for %d runs rc=%s %s" % (None if outs is None else len(outs), len(cases), getattr(ctx, "driver_rc", "?"), getattr(ctx, "driver_err", "")))
         return
